@@ -11,7 +11,7 @@ fn configure() -> usize {
     let parts = vsym::param("partitions", 3);
     unsafe {
         vstd::vfs::ENV.push(("NUN_STORAGE_STRATEGY", if strat == 1 { "s3" } else { "s3_patition" }));
-        vstd::vfs::ENV.push(("NUN_S3_NUMBER_OF_PARTITIONS", if parts == 1 { "1" } else if parts == 3 { "3" } else { "10" }));
+        vstd::vfs::ENV.push(("NUN_S3_NUMBER_OF_PARTITIONS", if parts == 1 { "1" } else if parts == 2 { "2" } else if parts == 3 { "3" } else { "10" }));
     }
     strat
 }
@@ -33,7 +33,7 @@ fn failed_gets() -> u64 { unsafe { aws_sdk_s3::FAILED_GETS } }
 
 pub fn c18_history() {
     let strat = configure();
-    let n = mk_primary();
+    let mut n = mk_primary();
     // the history harness uses an arbiter database (identifier 1): the hard-coded metadata of the S3 loaders is right for it by
     // construction, so the data checks below stay sensitive; c18_two_dbs is the harness that looks at metadata
     let dbstrategy = if vsym::param("dbstrategy", 1) == 0 { "none" } else { "arbiter" };
@@ -66,6 +66,14 @@ pub fn c18_history() {
         let p = peek(&n.dbs, "d", "n").unwrap(); cur[2] = Some((p.value.clone(), p.version));
         process_request("snapshot true", &n.dbs, &mut c); snapshot_all_pendding_dbs(&n.dbs);
         snap = Some(cur.clone()); last_kind_reclaim = true; snapshots = 1;
+    }
+    // restart_first = 1: the node is restarted after the persisted first phase, so the history below runs on a node whose keys
+    // were LOADED from the bucket (not written by it in this life)
+    if vsym::param("restart_first", 0) == 1 && snap.is_some() {
+        n = restart_node("n1");
+        let r = admin_client(&n.dbs); c = r.0; rx = r.1;
+        vsym::assume(is_ok(&process_request("use-db d tok", &n.dbs, &mut c)));
+        vsym::cover("restart.first-done", true);
     }
     let fault = arm_faults();
     let mut untouched_at_last_snapshot = [false, false, false];
